@@ -304,3 +304,33 @@ Definition scorer_py (orc : oracle) (max_chunk : Z) (plates : list (Z * plate)) 
   end.
 Definition forget_sel (plates : list (Z * pyplate)) : list (Z * plate) :=
   map (fun kp => (fst kp, snd (snd kp))) plates.
+
+(* ---- vocabulary of the translations of the dbal_fast_* wrappers and of pad_ragged_arrays_to_dense_array ---- *)
+(* np.array(a.shape) of a 2-d array *)
+Definition shape2z {A} (a : list (list A)) : Z * Z := (Z.of_nat (fst (shape2 a)), Z.of_nat (snd (shape2 a))).
+Definition dim0 {A} (a : list (list A)) : Z := Z.of_nat (fst (shape2 a)).       (* a.shape[0], a 2-d *)
+Definition dim1 {A} (a : list (list A)) : Z := Z.of_nat (snd (shape2 a)).       (* a.shape[1], a 2-d *)
+(* np.max(l, axis=0) of a list of pairs: the pair of the column maxima; ValueError (tag 27) on no rows *)
+Definition np_max_axis0 (l : list (Z * Z)) : result (Z * Z) :=
+  match l with
+  | [] => Err 27%Z
+  | x :: r => Ok (fold_left Z.max (map fst r) (fst x), fold_left Z.max (map snd r) (snd x))
+  end.
+(* pad_value * np.ones((n, h, w)): the constant array *)
+Definition np_full3 {A} (v : A) (n : nat) (hw : Z * Z) : list (list (list A)) :=
+  repeat (repeat (repeat v (Z.to_nat (snd hw))) (Z.to_nat (fst hw))) n.
+(* result[i, :a.shape[0], :a.shape[1]] = a : the cells (i, r, c) with r, c inside a take a's values *)
+Definition overlay_row {A} (src dst : list A) : list A := src ++ skipn (length src) dst.
+Fixpoint overlay2 {A} (src dst : list (list A)) : list (list A) :=
+  match src, dst with
+  | [], _ => dst
+  | r :: src', d :: dst' => overlay_row r d :: overlay2 src' dst'
+  | _ :: _, [] => []
+  end.
+Definition set_block {A} (res : list (list (list A))) (i : Z) (a : list (list A)) : list (list (list A)) :=
+  let j := Z.to_nat i in
+  firstn j res ++ match skipn j res with [] => [] | d :: r => overlay2 a d :: r end.
+(* v[:, None] * np.ones((n, e)) for a 1-d v with n = len(v) (broadcasting against another row count is not
+   represented: tag 35 is then not a Python behaviour; the translated function always passes n = v.shape[0]) *)
+Definition np_col_times_ones (v : list Qc) (n e : Z) : result arr2 :=
+  if (Z.of_nat (length v) =? n)%Z then Ok (map (fun x => repeat (x * 1) (Z.to_nat e)) v) else Err 35%Z.
